@@ -44,6 +44,7 @@ type memAlias struct {
 	path string
 	buf  []byte
 	bi   interface{ Sign() int }
+	off  int // where in buf the secret began when it was seen there
 }
 
 var dhAllowed = regexp.MustCompile(`^c\.(keys\.our(Current|Previous)DHKeys\.priv|ake\.secretExponent|ake\.keys\.our(Current|Previous)DHKeys\.priv)$`)
@@ -139,7 +140,7 @@ func (g *gen) memCheck(w *world, ms *memSide, where string) int {
 				olog.viol("C08", "text-retained:"+pathClass(h.Path), desc)
 			}
 		}
-		ms.aliases = append(ms.aliases, memAlias{h.Needle, h.Path, h.Buf, bigOrNil(h)})
+		ms.aliases = append(ms.aliases, memAlias{h.Needle, h.Path, h.Buf, bigOrNil(h), bytes.Index(h.Buf, n.b)})
 	}
 	for i := range inSession {
 		ms.sessionKey[i] = true
@@ -148,6 +149,7 @@ func (g *gen) memCheck(w *world, ms *memSide, where string) int {
 		olog.viol("C08", "session-history-retained", fmt.Sprintf("%s: %d earlier texts are reachable while encrypted", where, textsReachable))
 	}
 	// dropped but not wiped?
+	textSeen := map[*byte]bool{}
 	kept := ms.aliases[:0]
 	for _, a := range ms.aliases {
 		if reachable[a.n] {
@@ -161,7 +163,43 @@ func (g *gen) memCheck(w *world, ms *memSide, where string) int {
 		} else if a.bi != nil {
 			still = a.bi.Sign() != 0
 		}
-		if still && n.class != "text" {
+		if n.class == "text" {
+			// a text: every byte of the place that held it must have been zeroed, not only its
+			// beginning (looking for the whole text in the old buffer would miss a surviving tail)
+			if a.buf == nil || a.off < 0 || !textAllowed.MatchString(a.path) {
+				continue
+			}
+			region := a.buf[a.off : a.off+len(n.b)]
+			left, firstAt := 0, -1
+			for i, c := range region {
+				if c != 0 {
+					if firstAt < 0 {
+						firstAt = i
+					}
+					left++
+				}
+			}
+			if left == 0 {
+				continue
+			}
+			call := strings.TrimPrefix(where[strings.LastIndex(where, "; ")+1:], " ")
+			intact := left == len(n.b) && bytes.Equal(region, n.b)
+			// (texts taken off the list by a retransmission are erased like those that Send replaces and
+			// End forgets: the library once dropped them as they were)
+			key := "dropped-without-wiping:text:" + pathClass(a.path)
+			what := "untouched"
+			if !intact {
+				key, what = "dropped-without-wiping:text-tail", "erased only in part"
+			}
+			if textSeen[&a.buf[0]] {
+				continue // the same buffer, seen at several scans
+			}
+			textSeen[&a.buf[0]] = true
+			g.dist["mem:"+key+":"+call]++
+			olog.viol("C08", key, fmt.Sprintf("%s: the %d byte text %s (given to Send at step %d) was held at %s; that buffer is no longer reachable from the conversation and was %s: %d of its %d bytes are not zero, from offset %d on: %s", where, len(n.b), shortText(n.b), n.born, a.path, what, left, len(n.b), firstAt, shortText(region[firstAt:])))
+			continue
+		}
+		if still {
 			key := "dropped-without-wiping:" + n.class + ":" + pathClass(a.path)
 			if strings.HasPrefix(a.path, "c.smp.s") {
 				key = "smp-exponents-dropped-without-wiping"
@@ -171,6 +209,15 @@ func (g *gen) memCheck(w *world, ms *memSide, where string) int {
 	}
 	ms.aliases = kept
 	return total
+}
+
+// a text in a description: quoted, long ones by their beginning and their end (the .ops file has the
+// whole text in the send operation)
+func shortText(b []byte) string {
+	if len(b) <= 72 {
+		return fmt.Sprintf("%q", b)
+	}
+	return fmt.Sprintf("%q...%q", b[:40], b[len(b)-24:])
 }
 
 func bigOrNil(h otr3.VerifHit) interface{ Sign() int } {
@@ -280,7 +327,7 @@ func (g *gen) memScenario(w *world, steps int) {
 			if version == 3 {
 				q = []byte("?OTRv3?")
 			}
-			w.tick(61)
+			w.tick(75)
 			_, commit, _, _ := w.recv(p, q)
 			after(p, "after starting to re-key")
 			var reveal []otr3.ValidMessage
@@ -292,7 +339,7 @@ func (g *gen) memScenario(w *world, steps int) {
 				}
 			}
 			after(p, "after sending the Reveal Signature message of a re-keying")
-			w.tick(61)
+			w.tick(75)
 			_, commit2, _, _ := w.recv(o, q)
 			for _, m := range commit2 {
 				_, ts, _, _ := w.recv(p, m)
@@ -304,7 +351,7 @@ func (g *gen) memScenario(w *world, steps int) {
 			settle()
 			after(p, "after the overtaking exchange completed")
 		default:
-			w.tick(61)
+			w.tick(75)
 		}
 		if i%10 == 9 {
 			sizes = append(sizes, g.memCheck(w, sa, "sampling")+g.memCheck(w, sb, "sampling"))
@@ -486,7 +533,7 @@ func (g *gen) resendRounds(w *world) {
 	l.settle(10)
 	bound := len(text) + len("[resent] ")
 	for round := 1; round <= 6+g.r.Intn(6) && !w.dead; round++ {
-		w.tick(61)
+		w.tick(75)
 		_, ts, _, _ := w.recv(a, []byte("?OTR Error: could not read that"))
 		l.enqueue(a, ts)
 		l.settle(30)
@@ -560,6 +607,15 @@ func (g *gen) closedSessionText(w *world) {
 	ts, _ := w.send(a, old)
 	l.enqueue(a, ts)
 	l.settle(10)
+	// the buffer(s) in which the conversation holds the text now, to be looked at after the end
+	var held []otr3.VerifHit
+	var heldAt []int
+	hs, _ := otr3.VerifScan(a.c, [][]byte{old})
+	for _, h := range hs {
+		if at := bytes.Index(h.Buf, old); at >= 0 && textAllowed.MatchString(h.Path) {
+			held, heldAt = append(held, h), append(heldAt, at)
+		}
+	}
 	reported := g.r.Intn(2) == 0
 	if reported { // the peer says it could not read it (nothing is resent unless a new exchange follows)
 		_, back, _, _ := w.recv(a, []byte("?OTR Error: unreadable"))
@@ -587,8 +643,32 @@ func (g *gen) closedSessionText(w *world) {
 	if len(hits) > 0 {
 		olog.viol("C08", "text-retained-after-end", fmt.Sprintf("%s: after End() the last text of the conversation is still reachable at %s", desc, hits[0].Path))
 	}
+	for k, h := range held {
+		if len(hits) > 0 {
+			break // still reachable: reported above
+		}
+		// not reachable any more: erased, all of it?
+		region := h.Buf[heldAt[k] : heldAt[k]+len(old)]
+		left, firstAt := 0, -1
+		for i, c := range region {
+			if c != 0 {
+				if firstAt < 0 {
+					firstAt = i
+				}
+				left++
+			}
+		}
+		if left > 0 {
+			key := "dropped-without-wiping:text:" + pathClass(h.Path)
+			if firstAt > 0 {
+				key = "dropped-without-wiping:text-tail"
+			}
+			olog.viol("C08", key, fmt.Sprintf("%s: the last text of the conversation, %d bytes %s, was held at %s; after End() that buffer is no longer reachable but %d of the %d bytes are not zero, from offset %d on: %s", desc, len(old), shortText(old), h.Path, left, len(old), firstAt, shortText(region[firstAt:])))
+			g.dist["mem:"+key+":closed session"]++
+		}
+	}
 	// the next conversation
-	w.tick(61)
+	w.tick(75)
 	before := len(b.received)
 	if req != 0 {
 		ts, _ = w.send(a, g.cleanText())
@@ -643,6 +723,122 @@ func (g *gen) repeatedRekeying(w *world) {
 	}
 }
 
+// C08: long texts. A text of more than 256 bytes is sent; then it is replaced as the remembered last
+// message by the next Send, or the conversation is ended (by this side, or by the peer and then this
+// side). The conversation is scanned after every call: the buffer that held the text, once it is no
+// longer reachable, must be zero in every byte.
+func (g *gen) longText() []byte {
+	n := 257 + g.r.Intn(1744)
+	switch g.r.Intn(6) {
+	case 0:
+		n = 257 + g.r.Intn(4)
+	case 1:
+		n = 500 + g.r.Intn(30)
+	}
+	b := make([]byte, n)
+	for i := range b {
+		b[i] = byte('a' + g.r.Intn(26))
+		if g.r.Intn(7) == 0 {
+			b[i] = ' '
+		}
+	}
+	b[0], b[n-1] = 'T', '.'
+	return b
+}
+
+func (g *gen) longTextErased(w *world) {
+	w.parties = map[string]*party{}
+	w.dead = false
+	version := 2 + g.r.Intn(2)
+	pol := 2
+	if version == 3 {
+		pol = 4
+	}
+	a := w.newParty(partyCfg{policies: pol, keyIdx: 0, errh: true})
+	b := w.newParty(partyCfg{policies: pol, keyIdx: 1, errh: true})
+	l := &link{w: w, a: a, b: b}
+	sa, sb := &memSide{p: a}, &memSide{p: b}
+	side := func(p *party) *memSide {
+		if p == a {
+			return sa
+		}
+		return sb
+	}
+	ctx := fmt.Sprintf("OTRv%d, long texts", version)
+	after := func(p *party, what string) { g.memCheck(w, side(p), ctx+"; "+what) }
+	settle := func() {
+		for i := 0; i < 60 && (len(l.qab) > 0 || len(l.qba) > 0) && !w.dead; i++ {
+			for _, toB := range []bool{true, false} {
+				q, p := &l.qab, b
+				if !toB {
+					q, p = &l.qba, a
+				}
+				if len(*q) == 0 {
+					continue
+				}
+				m := (*q)[0]
+				*q = (*q)[1:]
+				_, ts, _, _ := w.recv(p, m)
+				l.enqueue(p, ts)
+				after(p, "after Receive")
+			}
+		}
+	}
+	step := 0
+	say := func(p *party, text []byte) {
+		step++
+		side(p).needles = append(side(p).needles, needle{text, "text", step})
+		ts, _ := w.send(p, text)
+		l.enqueue(p, ts)
+		after(p, "after Send")
+	}
+	l.enqueue(a, []otr3.ValidMessage{w.query(a)})
+	settle()
+	if w.dead || !a.c.IsEncrypted() || !b.c.IsEncrypted() {
+		return
+	}
+	g.dist["mem:long-texts"]++
+	ps := []*party{a, b}
+	// sent, then replaced by the next Send (a long or a short one)
+	for i, rounds := 0, 2+g.r.Intn(2); i < rounds && !w.dead; i++ {
+		p := ps[g.r.Intn(2)]
+		ctx = fmt.Sprintf("OTRv%d, long texts: round %d, %s sends a long text and then another text", version, i+1, p.id)
+		say(p, g.longText())
+		if g.r.Intn(2) == 0 {
+			settle()
+		}
+		if g.r.Intn(2) == 0 {
+			say(p, g.longText())
+		} else {
+			say(p, g.cleanText())
+		}
+		settle()
+	}
+	// sent, then the conversation ends
+	p, o := a, b
+	if g.r.Intn(2) == 0 {
+		p, o = b, a
+	}
+	peerFirst := g.r.Intn(3) == 0
+	ctx = fmt.Sprintf("OTRv%d, long texts: %s sends a long text, then the conversation is ended (by the peer first: %v)", version, p.id, peerFirst)
+	say(p, g.longText())
+	if g.r.Intn(2) == 0 || peerFirst {
+		settle()
+	}
+	if peerFirst {
+		ts, _ := w.end(o)
+		l.enqueue(o, ts)
+		after(o, "after End")
+		settle()
+	}
+	ts, _ := w.end(p)
+	l.enqueue(p, ts)
+	after(p, "after End")
+	settle()
+	after(a, "after End (at rest)")
+	after(b, "after End (at rest)")
+}
+
 func init() {
 	profiles["mem"] = func(seed int64, n int, out *emitter, extra map[string]interface{}) map[string]int {
 		g := &gen{r: rand.New(rand.NewSource(seed)), out: out, dist: map[string]int{}}
@@ -671,6 +867,10 @@ func init() {
 					}
 				}
 			}
+		}
+		// long texts (again after everything else)
+		for i := 0; i < (n+4)/5; i++ {
+			g.longTextErased(w)
 		}
 		extra["panics"] = panicCount
 		olog.export(extra)
